@@ -95,7 +95,7 @@ func docsOf(c *run.Ctx, gi int, tag string, proto string, streams []gen.Stream) 
 	}
 	out := map[string]map[string]bool{}
 	var perr error
-	for rsp := range isoParsers[proto](context.Background(), bytes.NewReader(body), nocache{}) {
+	for rsp := range isoParsers[proto](parserCtx(), bytes.NewReader(body), nocache{}) {
 		if rsp.Error != nil {
 			perr = rsp.Error
 			continue
@@ -170,6 +170,78 @@ func isolation(c *run.Ctx, gi int, proto string, lc gen.LogCase) {
 	}
 }
 
+// parserCtx: what the ingest controllers put into the context before calling a parser (the Influx decoder reads
+// the timestamp precision from it)
+func parserCtx() context.Context {
+	return context.WithValue(context.Background(), "precision", time.Nanosecond)
+}
+
+// allDocs parses a raw body and returns every (fingerprint, decoded label set) it produced.
+func allDocs(proto string, body []byte) (map[string]bool, error) {
+	out := map[string]bool{}
+	var perr error
+	for rsp := range isoParsers[proto](parserCtx(), bytes.NewReader(body), nocache{}) {
+		if rsp.Error != nil {
+			perr = rsp.Error
+			continue
+		}
+		if ts, ok := rsp.TimeSeriesRequest.(*wmodel.TimeSeriesData); ok && ts != nil {
+			for k, doc := range ts.MLabels {
+				canon := doc
+				if m, err := gen.StrictJSONStringMap([]byte(doc)); err == nil {
+					kv := make([]string, 0, len(m))
+					for _, l := range m {
+						kv = append(kv, fmt.Sprintf("%q=%q", l[0], l[1]))
+					}
+					sort.Strings(kv)
+					canon = "{" + strings.Join(kv, ",") + "}"
+				}
+				out[fmt.Sprintf("%d %s", ts.MFingerprint[k], canon)] = true
+			}
+		}
+	}
+	return out, perr
+}
+
+// influxLookalikes: two different series of the line protocol whose lines read the same once the escapes are
+// taken away (a tag value holding `,host=a` beside a tag `host=a`; a measurement holding `,env=prod` beside a tag
+// `env=prod`). In one body each must become what it becomes when it travels alone.
+func influxLookalikes(c *run.Ctx, gi int) {
+	r := c.Rng(fmt.Sprintf("c03/lookalike/%d", gi))
+	id := fmt.Sprintf("sid-il%d-0", gi)
+	ts := int64(1700000000000000000) + int64(r.Intn(86400))*1e9
+	pairs := [][2]string{
+		{`cpu,dc=x\,host\=a,sid=` + id, `cpu,dc=x,host=a,sid=` + id},
+		{`app\,env=prod,sid=` + id, `app,env=prod,sid=` + id},
+		{`cpu,sid=` + id + `,k=v\,w\=1`, `cpu,sid=` + id + `,k=v,w=1`},
+	}
+	p := pairs[r.Intn(len(pairs))]
+	if r.Intn(2) == 0 {
+		p[0], p[1] = p[1], p[0]
+	}
+	la := fmt.Sprintf("%s message=\"la\" %d\n", p[0], ts)
+	lb := fmt.Sprintf("%s message=\"lb\" %d\n", p[1], ts+1)
+	both, err := allDocs("influx-log", []byte(la+lb))
+	a, errA := allDocs("influx-log", []byte(la))
+	b, errB := allDocs("influx-log", []byte(lb))
+	if err != nil || errA != nil || errB != nil {
+		c.Cover("influx look-alike series", "a body was rejected (not judged)", 1)
+		return
+	}
+	c.Floor("influx bodies with two series that read the same without their escapes", 0, 1)
+	want := map[string]bool{}
+	for k := range a {
+		want[k] = true
+	}
+	for k := range b {
+		want[k] = true
+	}
+	if strings.Join(keysOf(both), " | ") != strings.Join(keysOf(want), " | ") {
+		c.Violation("stream-depends-on-neighbours/influx-log/escaped-separators", fmt.Sprintf("influx lines %q and %q in one body become %v; each alone: %v and %v", strings.TrimSpace(la), strings.TrimSpace(lb), keysOf(both), keysOf(a), keysOf(b)),
+			map[string]any{"case_index": gi, "body": la + lb})
+	}
+}
+
 func keysOf(m map[string]bool) []string {
 	out := make([]string, 0, len(m))
 	for k := range m {
@@ -235,6 +307,9 @@ func Child(c *run.Ctx, name string) {
 		ne := len(rq.Expect)
 		if len(lc.Streams) >= 2 && len(lc.Streams) <= 6 && !o.Big {
 			isolation(c, gi, proto, lc)
+		}
+		if gi%10 == 4 {
+			influxLookalikes(c, gi)
 		}
 		key := fmt.Sprintf("%s|multi=%v|streams=%s|entries=%s|hostile=%v", proto, rq.MultiChunk, classN(len(lc.Streams)), classN(ne), o.Hostile)
 		items[i] = &item{idx: gi, req: rq, lc: lc, key: key}
